@@ -1514,6 +1514,8 @@ pub fn explore(
     for (k, v) in an.shape() {
         shape.put(k, J::Bool(if k == "ten_or_more_terminals" { g.terms.len() >= 10 } else { v }));
     }
+    shape.put("more_than_64_terminals", J::Bool(g.terms.len() > 64));
+    shape.put("more_than_64_nonterminals", J::Bool(g.nts.len() > 64));
     let emitted_states = emitted_states;
     shape.put("emitted_states", J::uz(emitted_states));
     shape.put(
